@@ -68,6 +68,8 @@ ArgValid(s, a) ==
   ELSE IF s.cust = "bool" THEN [known |-> TRUE, ok |-> a.v # <<109, 97, 121, 98, 101>>]
   ELSE IF a.ty = "int" /\ Len(Mag(a.v)) <= 9 THEN
        LET n == IntOf(a.v) IN [known |-> TRUE, ok |-> (~s.haslo \/ n >= s.lo) /\ (~s.hashi \/ n <= s.hi)]
+  ELSE IF a.ty = "int" THEN      \* beyond 32 bits (the bounds themselves are small)
+       [known |-> TRUE, ok |-> IF Neg(a.v) THEN ~s.haslo ELSE ~s.hashi]
   ELSE IF a.ty = "float" /\ (s.haslo \/ s.hashi) THEN
        LET f == Milli(a.v) IN [known |-> f.known, ok |-> (~s.haslo \/ f.n >= s.lo) /\ (~s.hashi \/ f.n <= s.hi)]
   ELSE [known |-> TRUE, ok |-> ~(s.haslo \/ s.hashi) \/ a.ty \notin {"int", "float"}]
@@ -206,12 +208,9 @@ RtUrlOK(rules, b, dom, o, x) ==
   IN TargetOOD(t) \/ Unq(o.url) = Unq(TargetUrl(b, t))
 RtFnOK(rules, o, x) == rules[x.rule].rt.k = "fn" => (o.fnrule = x.rule /\ o.fnargs = x.args /\ o.fnadapter)
 
-JudgeX(rules, m, b, path, method, ws, o) ==
-  LET dom == DomOf(m, b)
-      p == Norm(path)
-      e == ExpectedX(rules, m, dom, p, method, ws)
-      okr == o.rule \in 1..Len(rules)
-  IN IF OutOfDomainX(rules, m, dom, path) THEN "ok"
+JudgeXE(rules, b, dom, ws, o, e, ood) ==
+  LET okr == o.rule \in 1..Len(rules)
+  IN IF ood THEN "ok"
      ELSE CASE o.kind = "match" ->
                  IF okr /\ o.argc = Cardinality(o.args) /\ [kind |-> "match", rule |-> o.rule, args |-> o.args, path |-> <<>>] \in e.outs THEN "ok"
                  ELSE IF ~okr THEN "MatchNotAdmitted"
@@ -239,27 +238,33 @@ JudgeX(rules, m, b, path, method, ws, o) ==
                  ELSE IF e.mreq \subseteq o.methods /\ o.methods \subseteq e.mall THEN "ok" ELSE "AllowedMethods"
             [] o.kind = "wsm" -> IF e.wsm THEN "ok" ELSE "SpuriousWebsocketMismatch"
             [] OTHER -> "UnexpectedException"
+JudgeX(rules, m, b, path, method, ws, o) ==
+  LET dom == DomOf(m, b) IN
+  JudgeXE(rules, b, dom, ws, o, ExpectedX(rules, m, dom, Norm(path), method, ws), OutOfDomainX(rules, m, dom, path))
 
 \* ------------------------------------------------------------------ the adapter's other methods (e)
 (* allowed_methods: "Returns the valid methods that match for a given path."  Judged through the    *)
 (* contract of a request with a method no rule lists: the methods a 405 must / may name.            *)
 NOMETHOD == "--"
+\* e = ExpectedX for the method NOMETHOD
+JudgeAllowedE(e, ood, ms) ==
+  IF ood THEN "ok"
+  ELSE IF ~(ms \subseteq e.mcand) THEN "AllowedMethodsNotOfARule"
+  ELSE IF e.outs = {} /\ ~e.nf /\ ~e.wsm /\ ~(e.mreq \subseteq ms) THEN "AllowedMethodsMissing"
+  ELSE "ok"
 JudgeAllowed(rules, m, b, path, ws, ms) ==
-  LET dom == DomOf(m, b)
-      e == ExpectedX(rules, m, dom, Norm(path), NOMETHOD, ws)
-  IN IF OutOfDomainX(rules, m, dom, path) THEN "ok"
-     ELSE IF ~(ms \subseteq e.mcand) THEN "AllowedMethodsNotOfARule"
-     ELSE IF e.outs = {} /\ ~e.nf /\ ~e.wsm /\ ~(e.mreq \subseteq ms) THEN "AllowedMethodsMissing"
-     ELSE "ok"
+  LET dom == DomOf(m, b) IN
+  JudgeAllowedE(ExpectedX(rules, m, dom, Norm(path), NOMETHOD, ws), OutOfDomainX(rules, m, dom, path), ms)
 (* test: "Test if a rule would match.  Works like match but returns True if the URL matches, or     *)
 (* False if it does not exist."                                                                     *)
+JudgeTestE(e, ood, res) ==
+  IF ood THEN "ok"
+  ELSE IF res /\ e.outs = {} THEN "TestTrueButNoMatch"
+  ELSE IF ~res /\ ~(e.nf \/ e.mna \/ e.wsm) THEN "TestFalseButMatches"
+  ELSE "ok"
 JudgeTest(rules, m, b, path, method, ws, res) ==
-  LET dom == DomOf(m, b)
-      e == ExpectedX(rules, m, dom, Norm(path), method, ws)
-  IN IF OutOfDomainX(rules, m, dom, path) THEN "ok"
-     ELSE IF res /\ e.outs = {} THEN "TestTrueButNoMatch"
-     ELSE IF ~res /\ ~(e.nf \/ e.mna \/ e.wsm) THEN "TestFalseButMatches"
-     ELSE "ok"
+  LET dom == DomOf(m, b) IN
+  JudgeTestE(ExpectedX(rules, m, dom, Norm(path), method, ws), OutOfDomainX(rules, m, dom, path), res)
 (* dispatch: "Does the complete dispatching process.  view_func is called with the endpoint and a   *)
 (* dict with the values for the view.  It should look up the view function, call it, and return a   *)
 (* response object or WSGI application.  http exceptions are not caught by default so that          *)
